@@ -357,7 +357,7 @@ pub fn run(cfg: &RunCfg) -> i32 {
   let corpus = Corpus::load();
   crate::replay_known::<Case>(&mut report, &known, check);
   let opts = stage_opts();
-  let total = cfg.budget(3_000, 100_000);
+  let total = cfg.budget(10_000, 150_000);
   let o = drive(cfg, "navigation", total, &known, || strategy(&opts), |c, st| interpret(&corpus, &opts, c, st), check);
   report.absorb("navigation", o);
   report.floor("start_inner_not_last", 0.20, "traversal_start");
